@@ -482,7 +482,7 @@ ASSUMPTIONS = [
     "temperature read-back is compared within one raw unit (1/18 C or 0.1 F); exact raw arithmetic is C14's business",
     "SPACK/SETWC layouts are decoded independently in the harness",
 ]
-PROBES = ["caller_gave_up_on_a_command", "caller_gave_up_on_a_command_queued_behind_a_library_request", "sync_twin_on_async_facade", "two_sync_twins_in_one_instant", "blocking_command", "two_blocking_commands_for_one_setting_in_one_instant", "command_right_after_library_sent_GETWC", "more_than_a_full_cycle_of_pack_commands", "command_while_another_in_flight", "in_active_mode", "in_idle_mode", "eco_on", "eco_off", "watercare_index", "watercare_label",
+PROBES = ["caller_gave_up_on_a_command", "caller_gave_up_on_a_command_queued_behind_a_library_request", "sync_twin_on_async_facade", "two_sync_twins_in_one_instant", "blocking_command", "two_blocking_commands_for_one_setting_in_one_instant", "blocking_watercare_command_while_a_poll_is_in_flight", "command_right_after_library_sent_GETWC", "more_than_a_full_cycle_of_pack_commands", "command_while_another_in_flight", "in_active_mode", "in_idle_mode", "eco_on", "eco_off", "watercare_index", "watercare_label",
           "on_from_off:GeckoLight", "off_from_on:GeckoLight", "on_when_already:GeckoLight", "off_when_already:GeckoLight",
           "on_from_off:GeckoBlower", "off_from_on:GeckoBlower", "target_temp_C", "target_temp_F"]
 N_QUICK = 68
